@@ -419,7 +419,7 @@ def _do_rewrite(source: str, rewrite: _Rewrite, *, fix_function_name: str = "") 
             else:
                 choice = candidate
 
-        if not core.is_valid_python(choice):
+        if new_code and not core.is_valid_python(choice):  # Nothing to indent in a deletion
             new_code_lines = new_code.splitlines(keepends=True)
             for extra_indent in range(0, 16, 4):
                 candidate = (
